@@ -34,6 +34,8 @@ StructEq(a, b) ==
            [] a.k = "seq"      -> a.c = b.c /\ Len(a.ms) = Len(b.ms)
                                   /\ \A i \in 1..Len(a.ms) : a.ms[i].many = b.ms[i].many /\ StructEq(a.ms[i].t, b.ms[i].t)
            [] a.k = "subclass" -> StructEq(a.t, b.t)
+           \* TypedDictValue.__hash__ hashes the sorted key names only (value.py:1699)
+           [] a.k = "typeddict" -> {a.items[i].key : i \in 1..Len(a.items)} = {b.items[i].key : i \in 1..Len(b.items)}
            [] a.k = "union"    -> /\ \A i \in 1..Len(a.ms) : \E j \in 1..Len(b.ms) : StructEq(a.ms[i], b.ms[j])
                                   /\ \A j \in 1..Len(b.ms) : \E i \in 1..Len(a.ms) : StructEq(a.ms[i], b.ms[j])
            [] OTHER            -> a = b
@@ -58,6 +60,11 @@ ImplEq(a, b) ==
            [] a.k = "seq"      -> a.c = b.c /\ ImplEqMembers(a.ms, b.ms)
            [] a.k = "subclass" -> ImplEq(a.t, b.t)
            [] a.k = "typevar"  -> a.n = b.n          \* TypeVarValue (terms of Algebra.tla only)
+           \* TypedDictValue: dataclass equality over the items dict (order of the keys is irrelevant)
+           [] a.k = "typeddict" ->
+                /\ {a.items[i].key : i \in 1..Len(a.items)} = {b.items[i].key : i \in 1..Len(b.items)}
+                /\ \A i \in 1..Len(a.items) : \A j \in 1..Len(b.items) :
+                      a.items[i].key = b.items[j].key => (a.items[i].req = b.items[j].req /\ ImplEq(a.items[i].t, b.items[j].t))
            [] a.k = "union"    ->
                 \/ ImplEqSeq(a.ms, b.ms)
                 \/ /\ \A i \in 1..Len(a.ms) : \E j \in 1..Len(b.ms) : ImplEq(a.ms[i], b.ms[j]) /\ ImplSameHash(a.ms[i], b.ms[j])
